@@ -22,6 +22,31 @@ pub trait Adapter {
     }
 }
 
+/// Checks whether `input` holds a complete program message, i.e. whether the
+/// parser reaches the message terminator without running out of data. A newline
+/// inside a string or a block of arbitrary data does not end the message.
+fn is_complete_message(root: &'static tree::Node, mut input: &[u8]) -> bool {
+    let mut header = root;
+
+    while !input.is_empty() {
+        match parser::parse(root, header, input) {
+            Err(ParseError::Incomplete) => return false,
+            // A faulty message is reported and discarded by `run`.
+            Err(_) | Ok((_, None)) => return true,
+            Ok((remaining, Some(call))) => {
+                if call.terminated {
+                    return true;
+                }
+                if let Some(call_header) = call.header {
+                    header = call_header;
+                }
+                input = remaining;
+            }
+        }
+    }
+    false
+}
+
 pub trait Interface: ErrorHandler {
     /// Returns the root node of the SCPI command tree of this interface.
     #[doc(hidden)]
@@ -144,6 +169,13 @@ pub trait Interface: ErrorHandler {
             {
                 let terminator_pos = read_offset + position;
                 let data = &cmd_buf[proc_offset..=terminator_pos];
+
+                // The newline is part of a string or a block: do not execute the first
+                // units of the message before the whole message has arrived.
+                if !is_complete_message(self.root_node(), data) {
+                    read_offset = terminator_pos + 1;
+                    continue;
+                }
     
                 let remaining = self.run(data, &mut res_buf).await;
 
